@@ -522,6 +522,11 @@ def c18_shapes(tier):
         shapes.append(('hx_help_arg', [k, 0], 'c18/help-arg/%d' % k))
     for k in range(6):
         shapes.append(('hx_help_arg_group', [k, 0], 'c18/help-arg-group/%d' % k))
+    for bflags in range(8):
+        shapes.append(('hx_usage_extras', [bflags, 0], 'c18/usage-extras/b%d' % bflags))
+    for k in range(6):
+        for order in (0, 1):
+            shapes.append(('hx_help_arg_prefix', [k, order], 'c18/help-arg-prefix/%d/order%d' % (k, order)))
     for base in ((60,) if tier == 'quick' else (60, 68, 76, 100, 232)):
         for variant in range(4):
             shapes.append(('hx_usage_wrap', [base, variant], 'c18/usage-wrap/len%d/v%d' % (base, variant)))
